@@ -129,7 +129,15 @@ func (r *run) unop(instr *ssa.UnOp, x value) value {
 	case token.XOR:
 		return bvNot(x.(*Term))
 	case token.ARROW:
-		panic(engineError{"channel receive unsupported"})
+		ch, ok := x.(*schan)
+		if !ok || ch == nil {
+			panic(engineError{"channel receive on a channel the engine does not model"})
+		}
+		v, got := r.chanRecv(ch, instr.X.Type().Underlying().(*types.Chan).Elem())
+		if instr.CommaOk {
+			return tuple{v, mkBool(got)}
+		}
+		return v
 	}
 	panic(engineError{fmt.Sprintf("invalid unary op %s %T", instr.Op, x)})
 }
@@ -710,7 +718,11 @@ func (r *run) callBuiltin(caller *frame, callpos token.Pos, fn *ssa.Builtin, arg
 		return mkBV(64, uint64(n))
 
 	case "close":
-		panic(engineError{"close(chan) unsupported"})
+		if ch, ok := args[0].(*schan); ok && ch != nil {
+			ch.closed = true
+			return nil
+		}
+		panic(engineError{"close(chan) on a channel the engine does not model"})
 
 	case "delete":
 		m := args[0].(*smap)
